@@ -113,7 +113,7 @@ def run_case(kind, params, ctx):
         r, s = recdsa.sign_with_k(d, zz % N, k)
         sig = rder.encode(r, min(s, N - s)) + b"\x01"
         for comp in (True, False):
-            arg_forms(ctx, "sig_verify", bu.sig_verify, [sig, secp.sec1_encode(secp.pub(d), comp), msg], prop_exc=(ContractViolation,))
+            arg_forms(ctx, "sig_verify", bu.sig_verify, [sig, secp.sec1_encode(secp.pub(d), comp), msg], prop_exc=(ContractViolation,), mutation="stat")
         arg_forms(ctx, "der_decode_sig", bu.der_decode_sig, [sig[:-1]], prop_exc=(ContractViolation,))
         ctx.nontrivial()
         return
